@@ -98,6 +98,25 @@ def run(ctx):
     if resf.incomplete:
         res.incomplete = True
     float_stats = {"forms": int(resf.stats.get("forms", 0)), "elements_compared": int(resf.stats.get("elements_compared", 0))}
+    # programs: the descriptor interpreted with the per-opcode reference (engine xrefprog) against emulation.  Catches what
+    # all execution paths share (the rewriting into loads / stores / broadcasts) and therefore agree on.
+    xref = vlib.build_engine("xrefprog", "plain")
+    resp = vlib.Results()
+    nshp = 32
+    lv = "LS,L2,L3,L1"
+    argsp = [["--levels", lv, "--shard", i, "--nshards", nshp] for i in range(nshp)]
+    vlib.run_shards(xref, argsp, env, timeout=deadline * 1.3 + 60, res=resp, label="xrefprog")
+    res.viol.extend(resp.viol)
+    if resp.incomplete:
+        res.incomplete = True
+    prog_stats = {"levels": lv, "programs_interpreted": int(resp.stats.get("ref_programs", 0)),
+                  "programs_outside_the_interpreter": int(resp.stats.get("ref_programs_outside_the_interpreter", 0)),
+                  "elements_compared": int(resp.stats.get("ref_elements_compared", 0)),
+                  "rule": "integer programs of L1, L2 (all size-compatible pairs), L3 (chains) and LS (one parameter or named constant feeding "
+                          "two instructions of different element width / prefix, both orders), 1-D, without loads that index, accumulators or "
+                          "floats; each interpreted element by element from its descriptor with ref/orcref.h (a scalar operand is the value "
+                          "truncated to the element width of the instruction using it, x2/x4 lane-wise) and compared with the bytes "
+                          "orc_executor_emulate leaves in every destination, n = 23"}
     # static part: live table vs documented table
     dump = vlib.build_engine("xoptab", "plain")
     live = {}
@@ -126,6 +145,7 @@ def run(ctx):
     st = res.stats
     cov = {
         "float_opcodes_on_the_emulation_path": float_stats,
+        "program_level_reference": prog_stats,
         "evaluations": int(st.get("elements_compared", 0)),
         "distinct_nontrivial": int(st.get("forms", 0)),
         "rule": "every non-float opcode of the live table x forms {x1,x2,x4} x second operand {array, constant, parameter} is emulated over "
@@ -152,6 +172,15 @@ def run(ctx):
 def replay(rep):
     """Re-run the whole operand table of the recorded opcode on the recorded path."""
     r = rep["replay"]
+    if "|program|" in rep.get("key", ""):
+        print("program-level finding; the whole family is re-run by bin/check C02 (engine xrefprog):", r.get("program", "")[:300])
+        exe = vlib.build_engine("xrefprog", "plain")
+        scratch = vlib.scratch_dir("C02r")
+        p = subprocess.run([exe, "--levels", "LS,L2,L3,L1"], stdout=subprocess.PIPE, env=vlib.scrub_env(scratch=scratch), timeout=1200)
+        shutil.rmtree(scratch, ignore_errors=True)
+        bad = [l for l in p.stdout.decode().splitlines() if '"t":"viol"' in l and rep["key"] in l]
+        print("\n".join(b[:500] for b in bad[:3]) if bad else "replayed without violation")
+        return 1 if bad else 0
     if "form" not in r:
         print("documentation-level finding; re-run bin/check C02:", r)
         return 0
